@@ -197,6 +197,45 @@ def run_harness(name, target_dir, unwind_override=None, cap_s=600, mem_gb=6, pla
     return res
 
 
+def parse_traces(out):
+    """Raw CBMC traces (`--output-format old --cbmc-args --trace`):
+    check id -> list of hex byte strings (little endian) in kani::any() order."""
+    traces = {}
+    cur = None
+    for line in out.splitlines():
+        m = re.match(r"^Trace for (.*):$", line)
+        if m:
+            cur = m.group(1).strip()
+            traces[cur] = []
+            continue
+        if cur is None:
+            continue
+        m = re.match(r"^\s*goto_symex\$\$return_value\$\$\S*any_raw_internal\S*=.*\(([01 ]+)\)\s*$", line)
+        if m:
+            groups = m.group(1).split()
+            by = [int(g, 2) for g in groups]   # most significant byte first
+            traces[cur].append(bytes(reversed(by)).hex())
+    return traces
+
+
+def run_traces(name, target_dir, cap_s=1800, mem_gb=8):
+    cmd = ["cargo", "kani", "--target-dir", target_dir] + KANI_FLAGS + [
+        "-Z", "unstable-options", "--harness", name, "--exact", "--output-format", "old", "--cbmc-args", "--trace"]
+    pre = "ulimit -v %d; exec " % (mem_gb * 1024 * 1024)
+    sh = pre + " ".join("'%s'" % c for c in cmd)
+    p = subprocess.Popen(["bash", "-c", sh], cwd=KANI_CRATE, env=env_offline(), stdout=subprocess.PIPE,
+                         stderr=subprocess.STDOUT, start_new_session=True, text=True, errors="replace")
+    try:
+        out, _ = p.communicate(timeout=cap_s)
+    except subprocess.TimeoutExpired:
+        try:
+            os.killpg(p.pid, signal.SIGKILL)
+        except ProcessLookupError:
+            pass
+        out, _ = p.communicate()
+    return parse_traces(out)
+
+
 def list_rubato_functions(goto_file):
     if not goto_file or not os.path.exists(goto_file):
         return []
